@@ -70,7 +70,7 @@ def _levels(tier):
 
 
 def bounds(tier):
-    return {"levels": _levels(tier), "items": [naming.label(((i, "")[:1] + ("",),))[:0] or "%s:%s" % (i[0], i[1]) for i in ITEMS],
+    return {"levels": _levels(tier), "items": ["%s:%s" % (i[0], i[1]) for i in ITEMS],
             "names": naming.U_NAME, "names_level3": NAMES3}
 
 
@@ -168,7 +168,7 @@ def check_case(assign, acc):
 
     io.reset_writer_state()
     ps = naming.rename_spec(base_spec(), assign) if assign else base_spec()
-    lab = naming.label(assign) if assign else "base"
+    lab = _label(assign)
     case = {"assign": tj(assign)}
     try:
         b = io.build(ps, acc)
@@ -186,7 +186,7 @@ def check_case(assign, acc):
         acc.violation("%s|%s" % (sub, lab), what, case)
 
     # ---------------- PDDL
-    renamed = False
+    mangled_p = mangled_a = 0
     try:
         w = PDDLWriter(prob)
         text = w.get_domain() + w.get_problem()
@@ -209,9 +209,9 @@ def check_case(assign, acc):
                 except UPException as e:
                     viol("pddl:total", "%s %r has no PDDL name after writing (%s)" % (label, _nm(x), e))
                     continue
-                if n != _nm(x):
-                    renamed = True
                 is_var = isinstance(x, (up.model.Parameter, up.model.Variable))
+                if n.lstrip("?") != _nm(x).lower():
+                    mangled_p += 1
                 if not (PDDL_VAR if is_var else PDDL_NAME).match(n):
                     viol("pddl:valid", "%s %r is written as %r, not a PDDL identifier" % (label, _nm(x), n))
                 if not is_var and n.lower() in kws:
@@ -248,7 +248,7 @@ def check_case(assign, acc):
                     continue
                 n = mapping[x]
                 if n != _nm(x):
-                    renamed = True
+                    mangled_a += 1
                 if not ANML_NAME.match(n):
                     viol("anml:valid", "%s %r is written as %r, not an ANML identifier" % (label, _nm(x), n))
                 if n in aw.ANML_KEYWORDS:
@@ -256,11 +256,17 @@ def check_case(assign, acc):
                 if n in seen and not (seen[n] == x):
                     viol("anml:injective", "%r and %r are both written %r" % (_nm(seen[n]), _nm(x), n))
                 seen[n] = x
-    if renamed:
+    if mangled_p or mangled_a:
         acc.count("nontrivial")
-    acc.outcome("renamed" if renamed else "verbatim")
+    acc.outcome("pddl-mangled=%d anml-mangled=%d" % (mangled_p, mangled_a))
     if len(assign) <= 1:
         acc.sample({"assign": lab})
+
+
+def _label(assign):
+    """root-cause label: namespace kinds and adversarial names (which item of the namespace got
+    the name does not matter)"""
+    return ",".join(sorted("%s=%r" % (ns, nm) for (ns, _it), nm in assign)) or "base"
 
 
 def su_harness(msg):
